@@ -1,0 +1,42 @@
+//go:build verif
+
+package p2p
+
+import (
+	"crypto/ecdsa"
+	"io"
+
+	"github.com/zenon-network/go-zenon/p2p/discover"
+)
+
+// Exports for the verification harness (/verif): the base (devp2p) protocol of a connection - message codes,
+// the protocol handshake reader, and the dialing side of the encryption handshake, so that a remote peer can
+// be played over a real socket against a real Server.
+
+const (
+	VerifBaseProtocolVersion    = baseProtocolVersion
+	VerifBaseProtocolLength     = baseProtocolLength
+	VerifBaseProtocolMaxMsgSize = baseProtocolMaxMsgSize
+
+	VerifHandshakeMsg = handshakeMsg
+	VerifDiscMsg      = discMsg
+	VerifPingMsg      = pingMsg
+	VerifPongMsg      = pongMsg
+)
+
+// VerifProtoHandshake is the RLP structure of the protocol handshake.
+type VerifProtoHandshake = protoHandshake
+
+// VerifReadProtocolHandshake reads the remote protocol handshake as Server.setupConn does.
+func VerifReadProtocolHandshake(rw MsgReader, ourVersion uint64) (*VerifProtoHandshake, error) {
+	return readProtocolHandshake(rw, &protoHandshake{Version: ourVersion})
+}
+
+// VerifInitiatorHandshake runs the encryption handshake as the dialing side and returns the frame reader/writer.
+func VerifInitiatorHandshake(fd io.ReadWriter, prv *ecdsa.PrivateKey, remote discover.NodeID) (MsgReadWriter, error) {
+	sec, err := initiatorEncHandshake(fd, prv, remote, nil)
+	if err != nil {
+		return nil, err
+	}
+	return newRLPXFrameRW(fd, sec), nil
+}
